@@ -105,7 +105,7 @@ func judgeRuns(ctx *core.Ctx, cov *core.Cov, scs []Scenario, workers int) ([]*Ru
 	}
 	var all []ev.Event
 	for _, r := range recs {
-		if r.Sc.ExpectRefuse {
+		if r.Sc.ExpectRefuse || r.Sc.MayRefuse {
 			continue
 		}
 		all = append(all, r.Events...)
@@ -149,6 +149,20 @@ func judgeRuns(ctx *core.Ctx, cov *core.Cov, scs []Scenario, workers int) ([]*Ru
 			continue
 		}
 		cov.Case(sc.GroupKey()+"|"+sc.Strategy+fmt.Sprint(sc.Seed), true)
+		if sc.MayRefuse && (len(r.Errs) > 0 || !r.Quiescent) {
+			continue
+		}
+		if sc.MayRefuse {
+			fin := 0
+			for _, f := range r.Finished {
+				if f {
+					fin++
+				}
+			}
+			if fin == 0 {
+				continue
+			}
+		}
 		if len(r.Errs) > 0 {
 			ctx.Report(fmt.Sprintf("%s:error:%s", ctx.ID, sc.Proto), fmt.Sprintf("honest run %s (%s) reported errors: %s", sc.GroupKey(), sc.Strategy, strings.Join(r.Errs, "; ")), sc)
 			continue
@@ -427,6 +441,25 @@ func c03Plan(ctx *core.Ctx) []Scenario {
 				}
 				add(pump.EdKeygen, n, t, class, strats[i%len(strats)])
 			}
+		}
+	}
+	// share ids that collide (or vanish) modulo the group order are inadmissible: the run may be refused, but if it
+	// completes the sharing must still be consistent
+	for _, p := range []pump.Proto{pump.EdKeygen, pump.EcKeygen} {
+		q := q25519
+		if p == pump.EcKeygen {
+			q = qsecp
+			if !ctx.Thorough() {
+				continue
+			}
+		}
+		for _, ids := range [][]string{
+			{"1", "2", new(big.Int).Add(q, big.NewInt(1)).String()},
+			{"5", new(big.Int).Add(q, big.NewInt(5)).String(), "9"},
+			{q.String(), "3", "4"},
+		} {
+			scs = append(scs, Scenario{Proto: p, N: 3, T: 1, Strategy: "fifo", Seed: ctx.Seed*3001 + int64(i) + 1, PartyKeys: ids, MayRefuse: true})
+			i++
 		}
 	}
 	type nt struct{ n, t int }
